@@ -51,6 +51,9 @@ def load_events(path=None):
             out[model]["version"] = m.group(3)
         else:
             out[model]["events"].append(EvDecl(model, html.unescape(m.group(4)), html.unescape(m.group(5))))
+    if path.endswith("doc/user/emulation/events.md") and (len(out) < 8 or sum(len(d["events"]) for d in out.values()) < 100):
+        from .common import InfraError
+        raise InfraError("cannot parse %s (format changed?)" % path)
     return out
 
 
